@@ -1389,7 +1389,8 @@ def random_fault_history(rnd, idx):
         if op is None or (op[0] == 'add_dest' and URLS[op[5]] == 'either'):
             continue
         done += 1
-        if fired or done <= n1 or op[0].startswith('foreign') or op[0] == 'restart':
+        if fired or done <= n1 or op[0].startswith('foreign') or op[0] == 'restart' or \
+                (op[0] == 'reg' and rnd.random() < 0.75):      # registration is the most frequent call: mostly spared
             if not H.step(op):
                 break
             if fired and done > n1 + 6:
